@@ -6,6 +6,7 @@ import (
 	"fmt"
 	"math/rand"
 	"os"
+	"strings"
 	"time"
 
 	"github.com/btcsuite/btcd/wire"
@@ -34,6 +35,16 @@ func walletSnap(f *wh.Funded) string {
 // ReleaseOutput, relevant-transaction and block notifications) with the k-th write of
 // their database transaction failing, for every k.
 func walletFaults(r *evid.Run, dir string, cs int64) {
+	// a failed write that leaves one of the wallet's or the manager's locks behind
+	// shows as a goroutine parked on that lock for good
+	stack, blocked := evid.BlockedAny([]string{"btcwallet/waddrmgr.", "btcwallet/wallet.", "btcwallet/wtxmgr."}, func() { walletFaultsRun(r, dir, cs) })
+	if blocked {
+		r.StopEarly()
+		r.Violation("c10:wallet-blocked-after-failed-write", "after an injected write failure a goroutine inside the wallet has been parked on a lock for more than a minute while the operation sequence made no progress:\n"+stack, "wallet", cs, map[string]any{"stack": strings.Split(stack, "\n")})
+	}
+}
+
+func walletFaultsRun(r *evid.Run, dir string, cs int64) {
 	rg := rand.New(rand.NewSource(cs))
 	f, err := wh.NewFunded(rg, dir, true, 4)
 	if err != nil {
